@@ -5,6 +5,7 @@
 //! in harness code; a `kani::cover!` on the success and on the error path of every harness.
 #![allow(dead_code)]
 #![allow(clippy::all)]
+#![cfg_attr(kani, feature(str_lines_remainder))]
 
 #[cfg(kani)]
 mod stubs;
@@ -670,6 +671,34 @@ mod harness {
     fn c14_span_roundtrip_len4() {
         span_case::<4>();
     }
+
+    /// The whole-text span (`Span::from(&str)`, built on the error paths of type / value / module parsing) exists
+    /// for EVERY text of up to 5 bytes: no panic in Position::new (line and column are non-zero), start <= end.
+    /// `str::lines` is replaced by the byte-loop model in stubs.rs (the real iterator runs CBMC out of memory).
+    macro_rules! span_from_str_harness {
+        ($name:ident, $n:expr, $unwind:expr) => {
+            #[kani::proof]
+            #[kani::unwind($unwind)]
+            #[kani::stub(<core::str::Lines as core::iter::Iterator>::next, crate::stubs::lines_next)]
+            #[kani::stub(<core::str::Lines as core::iter::DoubleEndedIterator>::next_back, crate::stubs::lines_next_back)]
+            fn $name() {
+                let buf: [u8; $n] = kani::any();
+                let len: usize = kani::any();
+                kani::assume(len <= $n);
+                let file = match core::str::from_utf8(&buf[..len]) {
+                    Ok(s) => s,
+                    Err(_) => return,
+                };
+                let span = Span::from(file);
+                assert!(span.start.line <= span.end.line);
+                assert!(span.start.line < span.end.line || span.start.col <= span.end.col);
+                kani::cover!(span.end.line.get() > 1);
+                kani::cover!(span.end.col.get() > 1);
+            }
+        };
+    }
+    span_from_str_harness!(c06_span_from_str_len3, 3, 6);
+    span_from_str_harness!(c06_span_from_str_len5, 5, 8);
 
     /// to_slice never panics on the spans pest can hand out for a file: line/col of offsets a <= b <= len
     /// (b = len is the end of the input; the slice is then not found, which the callers tolerate)
